@@ -224,6 +224,16 @@ func genC06(g *Rng, tier string, emit func(Op)) {
 	for _, kp := range keys {
 		emit(declKey(kp))
 	}
+	// several credentials issued in one session: the commitment message carries one proof per
+	// credential (a list the issuer reads from its wire form)
+	for _, shape := range [][]bool{{true, true}, {true, true, true}, {true, false, true}, {false, true, true}} {
+		specs := make([]builderSpec, len(shape))
+		for i, iss := range shape {
+			specs[i] = builderSpec{kp: keys[0], issuance: iss}
+		}
+		s := buildSession(g, specs, randSecret(g), false)
+		emit(listOp(s.keys, s.trees, s.ctx, s.nonce, false, nil, fmt.Sprintf("multi-credential-commitments-%d", len(shape)), "accept"))
+	}
 	var prev *issuanceRun
 	// the parameter set with Lm != Lh (4096-bit moduli): attributes between the hash length and
 	// the message length, and random-blind attributes, are signed as they are
